@@ -662,6 +662,9 @@ def _is_progress_loop(loop):
         if isinstance(x, ast.Call) and isinstance(x.func, ast.Attribute) and norm(x.func.value) == a and x.func.attr in ("pop", "remove", "clear"):
             return False
 
+    # elements that are added to a SET A count only if they are taken from a difference with A (so they are new)
+    fresh_elements = any((isinstance(x, ast.For) or isinstance(x, ast.comprehension)) and f"- {a}" in norm(x.iter) for x in ast.walk(body))
+
     def progresses(stmts):
         """True if every path through *stmts* that falls off the end has appended to A; leaving paths are fine"""
         done = False
@@ -673,6 +676,9 @@ def _is_progress_loop(loop):
             if isinstance(st, ast.Expr) and isinstance(st.value, ast.Call) and isinstance(st.value.func, ast.Attribute) and st.value.func.attr in ("append", "extend") \
                     and norm(st.value.func.value) == a:
                 done = True
+            elif isinstance(st, ast.Expr) and isinstance(st.value, ast.Call) and isinstance(st.value.func, ast.Attribute) and st.value.func.attr == "add" \
+                    and norm(st.value.func.value) == a and fresh_elements:
+                done = True     # a set grows when the element is new: it is drawn from  <..> - A
             elif isinstance(st, ast.If):
                 if progresses(st.body) and progresses(st.orelse) and st.orelse:
                     done = True
@@ -692,11 +698,18 @@ def r10e(repo, chk):
         if mn in ("structures_generated", "types_generated") or mn in NOT_REACHABLE:
             continue
         m = repo.mod(mn)
-        for loop in ast.walk(m.tree):
-            if not isinstance(loop, ast.While):
-                continue
-            fn = enclosing_def(loop)
-            q = fn.qual if fn is not None else "<module>"
+        # the loops of the functions in canonical form (one shape for equivalent spellings), then those at module level
+        found, seen_ = [], set()
+        for q_, f_ in m.funcs.items():
+            if isinstance(f_, (ast.FunctionDef, ast.AsyncFunctionDef)):
+                for lp_ in ast.walk(f_):
+                    if isinstance(lp_, ast.While) and id(lp_) not in seen_:
+                        seen_.add(id(lp_))
+                        found.append((q_, lp_))
+        for lp_ in ast.walk(m.tree):
+            if isinstance(lp_, ast.While) and enclosing_def(lp_) is None:
+                found.append(("<module>", lp_))
+        for q, loop in found:
             key = f"{mn}:{q}:while {norm(loop.test)[:60]}"
             where = f"{m.path}:{loop.lineno} in {q}"
             kind = AUDITED_LOOPS.get((mn, q))
@@ -732,4 +745,7 @@ def r10e(repo, chk):
                         has_append = any(isinstance(x, ast.Call) and norm(x.func).endswith(".append") for x in ast.walk(st))
                         has_break = any(isinstance(x, ast.Break) for x in ast.walk(st))
                         ok = has_append and has_break
+                if not (ok and len(loop.body) == 1) and _is_progress_loop(loop):
+                    chk.ok("R10.e", key + " [recognised: grows a collection towards a fixed size or leaves]", {"kind": "progress (auto)"})
+                    continue
                 chk.judge("R10.e", key, ok and len(loop.body) == 1, "worklist loop no longer makes progress or raises on every iteration", {"kind": kind}, where)
